@@ -134,6 +134,46 @@ def _work(chunk):
     return dict(n=n, accepted=acc, skipped=skipped, viol=out)
 
 
+# ---- two classes with the same __name__, started in one process in both orders ----------------
+def same_name_cases():
+    out = []
+    for order in (("SameNameOld", "SameNameNew"), ("SameNameNew", "SameNameOld")):
+        for tr in ("local",):
+            out.append(dict(order=list(order), transport=tr))
+    return out
+
+
+def judge_same_name(c):
+    """each of the two simulators must be treated according to its own signatures/version"""
+    sims = []
+    for i, cls in enumerate(c["order"]):
+        old = cls.endswith("Old")
+        sims.append(dict(sid=f"S{i}", type="time-based", step=1, cls=cls,
+                         api_version="2.2" if old else "3.0", omit_type=False))
+    scen = dict(until=2, sims=sims, conns=[])
+    run = Run(scen, dict(gates=(), transport=c["transport"]), None)
+    with contextlib.redirect_stdout(io.StringIO()):
+        res = run.execute()
+    out = []
+
+    def add(kind, msg):
+        out.append(dict(prop="C15", kind=kind, cls=None, msg=f"{msg}: {c}", case=dict(c, same_name=True)))
+    if res[0] != "ok":
+        add("same-name-classes-confused", f"start/run of two classes named 'SameName' -> {res}")
+        return out
+    for i, cls in enumerate(c["order"]):
+        old = cls.endswith("Old")
+        ar = sorted({e[3] for e in run.trace if e[0] == "A" and e[1] == f"S{i}"})
+        if ar != [2 if old else 3]:
+            add("same-name-classes-confused", f"S{i} ({cls}) received step with {ar} arguments")
+        init = [e for e in run.trace if e[0] == "I" and e[1] == f"S{i}"]
+        if old and init and init[0][2]:
+            add("same-name-classes-confused", f"S{i} ({cls}) received time_resolution")
+        if not old and init and not init[0][2]:
+            add("same-name-classes-confused", f"S{i} ({cls}, current API) did not receive time_resolution")
+    return out
+
+
 # ---- same scheduling and data as a current-version simulator --------------------------------
 def view_jobs():
     jobs = []
@@ -157,6 +197,14 @@ def view_scen(c, pos):
         sims[idx] = old
     return dict(until=4, sims=sims, conns=[C("A", "B", "po", "mi"), C("B", "Cc", "po", "mi"),
                                            C("Cc", "A", "po", "mi", shift=1, init=True)])
+
+
+def _same_name_work(c):
+    try:
+        return dict(viol=judge_same_name(c))
+    except Exception as e:  # noqa: BLE001
+        import traceback
+        return dict(error=repr(e)[:200] + traceback.format_exc()[-700:])
 
 
 def _view_work(job):
@@ -187,6 +235,11 @@ def _view_work(job):
 
 def replay(doc):
     c = dict(doc["case"])
+    if c.pop("same_name", None):
+        v = judge_same_name(c)
+        for x in v:
+            print("REPRODUCED", x["kind"], x["msg"][:400])
+        return 1 if v else 0
     pos = c.pop("position", None)
     if pos:
         res = _view_work((c, pos))
@@ -214,6 +267,16 @@ def check(prop, tier):
                 return 2
             for k in tot:
                 tot[k] += res[k]
+            for v in res["viol"]:
+                kinds[v["kind"]] = kinds.get(v["kind"], 0) + 1
+                if kinds[v["kind"]] <= 5:
+                    rep.report(v, dict(kind="call", module="mc.enum_c15", case=v["case"]))
+        for res in pool.imap_unordered(_same_name_work, same_name_cases(), chunksize=1):
+            if res.get("error"):
+                print("MACHINERY-ERROR", res["error"])
+                return 2
+            tot["n"] += 1
+            tot["accepted"] += 1
             for v in res["viol"]:
                 kinds[v["kind"]] = kinds.get(v["kind"], 0) + 1
                 if kinds[v["kind"]] <= 5:
